@@ -193,13 +193,16 @@ func (h *authH) gatewayGroup() {
 	amt := func() *big.Int { return big.NewInt(int64(1_000_000 + h.rng.Intn(9_000_000))) }
 	// make the stateful payloads satisfiable for the rightful caller
 	if ok, _ := h.evmAccept(c.Funded.Eth, xbAssetsAddr, h.abis.assets, "depositLST", lz, usdt, st, big.NewInt(500_000_000)); !ok {
-		panic("setup deposit refused")
+		h.env.Note("gateway-setup-refused:depositLST") // not a reason to stop: the product below shows who IS admitted
+		h.setupByKeeper("depositLST", staker)          // dom_auth_setup.go
 	}
 	if ok, _ := h.evmAccept(c.Funded.Eth, xbAssetsAddr, h.abis.assets, "depositNST", lz, []byte("vpk-0"), st, new(big.Int).Mul(big.NewInt(64), big.NewInt(1e18))); !ok {
-		panic("setup NST deposit refused")
+		h.env.Note("gateway-setup-refused:depositNST")
+		h.setupByKeeper("depositNST", staker)
 	}
 	if ok, _ := h.evmAccept(c.Funded.Eth, xbDelegAddr, h.abis.deleg, "delegate", lz, uint64(1), usdt, st, opB, big.NewInt(100_000_000)); !ok {
-		panic("setup delegation refused")
+		h.env.Note("gateway-setup-refused:delegate")
+		h.setupByKeeper("delegate", staker)
 	}
 	type ident struct {
 		name string
